@@ -7,7 +7,7 @@ def prop(id, **kw):
     PROPS[id] = kw
 
 prop("C17",
-     coq=["model/WS.v", "proofs/WSProofs.v", "chk/C17chk.v", "props/C17.v", "refute/C17.v"],
+     coq=["model/WS.v", "proofs/WSProofs.v", "model/WsOut.v", "proofs/WsOutProofs.v", "gen/Extracted.v", "chk/C17chk.v", "props/C17.v", "refute/C17.v"],
      n={"quick": 300, "thorough": 6000, "search": 1500},
      shrink_fields=["frames", "sizes"],
      rule="stream cases: 1-8 binary frames with sizes from {0,1,2,b-1,b,b+1,2b,3b+1,random} against read buffers b in {1,2,3,7,16,64} "
